@@ -102,7 +102,7 @@ Proof.
   replace (W ++ 45 :: rv ++ b) with ((W ++ 45 :: rv) ++ b) by (norm_app; reflexivity).
   rewrite trim_suffix_app.
   rewrite (last_index_app_notin 45 W rv (alnum_no_dash rv Hrv)). cbv beta iota zeta.
-  rewrite skipn_S_app, firstn_app_exact. reflexivity.
+  rewrite skipn_S_app. rewrite (firstn_app_exact W (45 :: rv)). reflexivity.
 Qed.
 
 Lemma parse_pseudo_dot base ts rv b pv :
@@ -115,9 +115,9 @@ Proof.
   rewrite (last_index_app_notin 46 base ts (digits_no_dot ts Hts)).
   destruct (last_index_in 45 base Hin) as [i Hi].
   rewrite (last_index_app_r 45 base (46 :: ts) i); [|intros [E|E]; [discriminate|now apply (digits_no_dash ts Hts)]|exact Hi].
-  pose proof (last_index_lt _ _ _ Hi) as Hlt. cbv zeta.
+  pose proof (last_index_lt _ _ _ Hi) as Hlt. cbv beta iota zeta.
   replace (i <? length base)%nat with true by (symmetry; now apply Nat.ltb_lt).
-  now rewrite firstn_app_exact, skipn_S_app.
+  rewrite (firstn_app_exact base (46 :: ts)). now rewrite skipn_S_app.
 Qed.
 
 Lemma parse_pseudo_dash base ts rv b pv :
@@ -131,11 +131,11 @@ Proof.
   assert (Hnd : ~ In 46 (45 :: ts)) by (intros [E|E]; [discriminate|now apply (digits_no_dot ts Hts)]).
   destruct (last_index 46 base) as [j|] eqn:Hj.
   - rewrite (last_index_app_r 46 base (45 :: ts) j Hnd Hj).
-    pose proof (last_index_lt _ _ _ Hj) as Hlt.
+    pose proof (last_index_lt _ _ _ Hj) as Hlt. cbv beta iota zeta.
     replace (length base <? j)%nat with false by (symmetry; apply Nat.ltb_ge; lia).
-    now rewrite firstn_app_exact, skipn_S_app.
+    rewrite (firstn_app_exact base (45 :: ts)). now rewrite skipn_S_app.
   - rewrite (last_index_notin 46 (base ++ 45 :: ts)).
-    + now rewrite firstn_app_exact, skipn_S_app.
+    + cbv beta iota zeta. rewrite (firstn_app_exact base (45 :: ts)). now rewrite skipn_S_app.
     + intros Hin. apply in_app_or in Hin as [Hin|Hin]; [|auto].
       destruct (last_index_in 46 base Hin) as [k Hk]. congruence.
 Qed.
@@ -288,7 +288,7 @@ Proof.
     + destruct (pv_form2 major older p ts rv Ho Hpre) as (pt' & Hinc & Hn' & _ & ->).
       eexists. split; [reflexivity|]. now apply roundtrip_form2.
     + rewrite (pv_form4 major older p ts rv Ho) by (rewrite Hpre; discriminate).
-      eexists. split; [reflexivity|]. rewrite <- Hpre. apply roundtrip_form4; auto.
+      eexists. split; [reflexivity|]. apply roundtrip_form4; auto.
       rewrite Hpre. discriminate.
   - rewrite (pv_form1 major older ts rv Ho).
     destruct (eff_major_mk major Hmaj) as (M & HM & ->).
